@@ -107,7 +107,7 @@ func (c *Ctx) sharedBitsAccepted(rule string) {
 				continue
 			}
 			for _, in := range d.Instrs {
-				if ret, ok := an.AsReturn(in); ok && len(ret.Results) > 0 && !an.MayBeNilConst(an.RetVal(ret, len(ret.Results)-1)) {
+				if ret, ok := an.AsReturn(in); ok && len(ret.Results) > 0 && !an.MayReturnNil(ret, len(ret.Results)-1) {
 					return true
 				}
 			}
